@@ -1,4 +1,8 @@
 import Driver.OpsTransform
+import TT.Spec.Formats
+import TT.IO.Read
+import TT.Grammar.Output
+import TT.Grammar.Extract
 namespace Driver
 open TT TT.Tree TT.Spec
 
@@ -42,6 +46,39 @@ def runOpThm (op : String) (args : List String) : String :=
       | "raise_leaves" => (match boydSplit (negraMarkHeads t) with
          | .ok s => Tree.beqL (raising s).leaves s.leaves | .error _ => false)
       | "sibDistinct" => sibDistinct t
+      | "own_brackets" =>
+        if !(WF t && gapDegree t == 0 && BracketsOK t) then true else
+        (match bracketsSub {} false t with
+         | .ok s => (match readBrackets {} (s ++ ['\n']) with
+            | .ok [(1, r)] => sameTree r (asReadBrackets t)
+            | _ => false)
+         | .error _ => false)
+      | "own_export" =>
+        let o : OutOpts := {}
+        if !(WF t && ExportOK o t) then true else
+        (match writeExport o 7 t with
+         | .ok ls => (match readExport {} ((ls.map (· ++ ['\n'])).flatten) with
+            | .ok [(7, r)] =>
+              let strip := fun (x : Tree) => Tree.mapFields (fun s f => match s with | node _ _ => { f with word := none } | _ => f) x
+              sameTree (strip r) (strip (carryExportRoot o t))
+            | _ => false)
+         | .error _ => false)
+      | "dec_export" =>
+        let o : OutOpts := { exportFour := true }
+        if !(WF t && ExportOK o t) then true else
+        (match writeExport o 7 t with
+         | .ok ls => (match decExport true ls with
+            | some s => s.sid == 7 && sameTree s.tree (carryExportRoot o t) && s.tokensFirst && s.numbersFrom500 && s.parentsResolve && s.childBelowParent
+            | none => false)
+         | .error _ => false)
+      | "dec_tiger" =>
+        if !(WF t) then true else
+        (match decTiger (writeTiger 12 t) with
+         | some s => strToNat? s.sid == some 12 && sameTree s.tree (carryTiger t)
+         | none => false)
+      | "rcg_lines" =>
+        let (g, _) := extractAll [t]
+        g.rules.all fun (f, l, c) => readRcgLine (rcgLine f l c) == some (f, l, c)
       | _ => false
     toString r
   | _, _ => unknownOp
